@@ -214,7 +214,7 @@ def configs(tier):
             jobs.append(("vf.props.solvers", "c16_diagonal_sparse", dict(c, branch="sparse")))
             if tier == "thorough":
                 jobs.append(("vf.props.solvers", "c16_diagonal_sparse", dict(c, branch="sparse", complex_rhs=True)))
-    for name in ("boson_scalar", "boson_2x2", "boson_2blocks", "boson_nonsquare", "spin_boson", "fermions", "fermion_boson", "ladder", "boson_ladder", "spin_fermion"):
+    for name in ("boson_scalar", "boson_2x2", "boson_2blocks", "boson_nonsquare", "boson_nonhermitian_rhs", "boson_2x2_nonhermitian_rhs", "spin_boson", "fermions", "fermion_boson", "ladder", "boson_ladder", "spin_fermion"):
         jobs.append(("vf.props.secondq", "c16_2nd_quant", dict(set=name, _job="2nd_quant")))
     from .implicit import configs_c16_direct
 
